@@ -229,4 +229,69 @@ theorem records_parse : ∀ (rs : List (List (List Char))) (acc : List (List (Li
     simp
 
 
+
+/-- a divisor of a power of ten divides `10 ^ itself` (so the scale search of `showDec`, which has
+`den` as fuel, always succeeds on decimal fractions) -/
+theorem dvd_pow10_self : ∀ (n : Nat), (∃ k, n ∣ 10 ^ k) → n ∣ 10 ^ n := by
+  intro n
+  induction n using Nat.strongRecOn with
+  | _ n ih =>
+    intro ⟨k, hk⟩
+    by_cases h1 : n = 1
+    · subst h1; exact Nat.one_dvd _
+    · by_cases h0 : n = 0
+      · subst h0
+        have : 0 < 10 ^ k := Nat.pow_pos (by decide)
+        have := Nat.eq_zero_of_zero_dvd hk
+        omega
+      · -- gcd n 10 > 1, otherwise n is coprime to 10^k and divides it: n = 1
+        have hg : Nat.gcd n 10 ≠ 1 := by
+          intro hc
+          have hcop : Nat.Coprime n (10 ^ k) := Nat.Coprime.pow_right k hc
+          exact h1 (Nat.Coprime.eq_one_of_dvd hcop hk)
+        have hgpos : 0 < Nat.gcd n 10 := Nat.gcd_pos_of_pos_right n (by decide)
+        have hgn : Nat.gcd n 10 ∣ n := Nat.gcd_dvd_left n 10
+        have hg10 : Nat.gcd n 10 ∣ 10 := Nat.gcd_dvd_right n 10
+        obtain ⟨m, hm⟩ := hgn
+        have hmpos : 0 < m := by
+          rcases Nat.eq_zero_or_pos m with h | h
+          · rw [h] at hm; omega
+          · exact h
+        have hmlt : m < n := by
+          have h2 : 2 ≤ Nat.gcd n 10 := by omega
+          calc m < 2 * m := by omega
+            _ ≤ Nat.gcd n 10 * m := Nat.mul_le_mul_right m h2
+            _ = n := hm.symm
+        have hmk : m ∣ 10 ^ k := Nat.dvd_trans ⟨Nat.gcd n 10, by rw [Nat.mul_comm]; exact hm⟩ hk
+        have ihm := ih m hmlt ⟨k, hmk⟩
+        have h3 : n ∣ 10 ^ (m + 1) := by
+          rw [hm, Nat.pow_succ, Nat.mul_comm (10 ^ m) 10]
+          exact Nat.mul_dvd_mul hg10 ihm
+        exact Nat.dvd_trans h3 (Nat.pow_dvd_pow 10 (by omega))
+
+theorem findScale_spec (den : Nat) : ∀ (fuel k : Nat),
+    (10 ^ findScale den fuel k) % den = 0 ∨ findScale den fuel k = k + fuel
+  | 0, k => Or.inr rfl
+  | fuel + 1, k => by
+    rw [findScale]
+    split
+    · rename_i h; exact Or.inl h
+    · rcases findScale_spec den fuel (k + 1) with h | h
+      · exact Or.inl h
+      · exact Or.inr (by rw [h]; omega)
+
+/-- every decimal fraction `a / 10^k` is an amount `showDec` handles -/
+theorem isDecimal_mkRat (a : Int) (k : Nat) : isDecimal (mkRat a (10 ^ k)) = true := by
+  unfold isDecimal scaleOf
+  generalize hr : mkRat a (10 ^ k) = r
+  have hpow : (10 ^ k : Nat) ≠ 0 := Nat.ne_of_gt (Nat.pow_pos (by decide))
+  have hden : r.den ∣ 10 ^ k := by
+    rw [← hr, Rat.den_mkRat, if_neg hpow]
+    exact Nat.div_dvd_of_dvd (Nat.gcd_dvd_left _ _)
+  have hself := dvd_pow10_self r.den ⟨k, hden⟩
+  rcases findScale_spec r.den r.den 0 with h | h
+  · simp [h]
+  · rw [h]; simp [Nat.mod_eq_zero_of_dvd hself]
+
+
 end Knut.Table
